@@ -197,6 +197,41 @@ fn check_reopen_at(pad: usize) -> Check {
     Ok(())
 }
 
+/// The same round trip next to string properties whose encoded length
+/// changes: a string is set under one summary code page, the code page is
+/// switched, the package is saved.  `case` = (string index, page pair, order).
+fn check_reopen_beside_strings(case: (u8, u8, u8)) -> Check {
+    use msi::CodePage;
+    let strings = ["é", "éé", "ééé", "éééé", "Zoë", "日本", "日本語", "naïve café"];
+    let pairs = [(CodePage::Windows1252, CodePage::Utf8), (CodePage::Utf8, CodePage::Windows1252), (CodePage::Windows932, CodePage::Utf8), (CodePage::Utf8, CodePage::Windows932)];
+    let text = strings[case.0 as usize % strings.len()];
+    let (from, to) = pairs[case.1 as usize % pairs.len()];
+    let st = std::time::UNIX_EPOCH + std::time::Duration::new(987_654_321, 98_765_400);
+    let mut pkg = Package::create(PackageType::Installer, Cursor::new(Vec::new())).map_err(|e| Fail::new(format!("{P} create-failed"), e.to_string()))?;
+    pkg.summary_info_mut().set_codepage(from);
+    if case.2 % 2 == 0 {
+        pkg.summary_info_mut().set_creation_time(st);
+    }
+    pkg.summary_info_mut().set_author(text);
+    pkg.summary_info_mut().set_comments(text);
+    if case.2 % 2 == 1 {
+        pkg.summary_info_mut().set_creation_time(st);
+    }
+    if case.2 % 4 >= 2 {
+        // the strings are saved once under the first page
+        pkg.flush().map_err(|e| Fail::new(format!("{P} save-failed"), e.to_string()))?;
+    }
+    pkg.summary_info_mut().set_codepage(to);
+    let before = pkg.summary_info().creation_time().map(T::of_system);
+    let cursor = pkg.into_inner().map_err(|e| Fail::new(format!("{P} save-failed"), e.to_string()))?;
+    let pkg = Package::open(Cursor::new(cursor.into_inner())).map_err(|e| Fail::new(format!("{P} reopen-failed-beside-strings"), format!("strings {text:?} set under {from:?}, code page switched to {to:?} (order {}): the saved package does not open: {e}", case.2 % 4)))?;
+    let after = pkg.summary_info().creation_time().map(T::of_system);
+    if before != after {
+        return Err(Fail::new(format!("{P} reopen-differs-beside-strings"), format!("strings {text:?} set under {from:?}, code page switched to {to:?} (order {}): creation time {before:?} before saving, {after:?} after reopening", case.2 % 4)));
+    }
+    Ok(())
+}
+
 fn anchors() -> Vec<i128> {
     // the ends of the representable range, the Unix epoch, and every point
     // where an intermediate quantity of a conversion reaches a 64-bit limit:
@@ -329,6 +364,23 @@ pub fn run(ctx: &Ctx) -> Report {
     }, &mut st);
     rep.push(v);
 
+    // 6. beside strings whose encoded length changes with the code page
+    let mut beside: Vec<(u8, u8, u8)> = Vec::new();
+    for a in 0..8u8 {
+        for b in 0..4u8 {
+            for c in 0..4u8 {
+                beside.push((a, b, c));
+            }
+        }
+    }
+    let v = par_enumerate(ctx, "strings", &beside, |c, st| {
+        st.eval();
+        st.nontrivial(&("strings", *c));
+        st.class("reopen:beside-strings");
+        check_reopen_beside_strings(*c)
+    }, &mut st);
+    rep.push(v);
+
     rep.stats = st;
     rep
 }
@@ -339,6 +391,7 @@ pub fn replay(_ctx: &Ctx, doc: &J) -> Check {
     match kind {
         "time" => check_time(serde_json::from_value(doc["case"].clone()).map_err(bad)?),
         "reopen" => check_reopen(serde_json::from_value(doc["case"].clone()).map_err(bad)?),
+        "strings" => check_reopen_beside_strings(serde_json::from_value(doc["case"].clone()).map_err(bad)?),
         "layout" => check_reopen_at(doc["case"].as_u64().unwrap_or(0) as usize),
         "pair" => {
             let (a, b): (T, T) = serde_json::from_value(doc["case"].clone()).map_err(bad)?;
